@@ -1,4 +1,5 @@
 """C08 - everything gqlgen serialises is valid JSON that round-trips the value."""
+import re
 from collections import Counter
 from lib import vf
 
@@ -108,6 +109,9 @@ def run(ctx):
         else:
             failing = True
             rep["shape"] = {"scalar": r[1]}
+            if r[1] == "Time" and re.search(r"[+-]\d\d:\d\d:(?!00)\d\d$", r[2]):
+                # the value is held in a location whose UTC offset is not a whole number of minutes
+                rep["shape"]["zone_offset_has_seconds"] = True
             rep["replay"] = "%s on %s wrote hex %s: %s" % (r[1], r[2], r[3], r[4])
         ctx.violation(rep, no_failing_input=not failing)
 
